@@ -172,7 +172,17 @@ def _vc_ffiseq(v):
     return False
 
 
-VECTOR_CORRUPTORS = {"replay-ffiseq": _vc_ffiseq, "replay-contains": _vc_contains, "replay-lit": _vc_lit, "replay-panic": _vc_panic, "replay": _vc_lang, "replay-hist": _vc_hist, "replay-reg": _vc_reg, "replay-types": _vc_types}
+def _vc_serde(v):
+    """flip the expected verdict of a decoder vector"""
+    if "ok" in v:
+        v["ok"] = not v["ok"]
+        if "vok" in v:
+            v["vok"] = not v["vok"]
+        return True
+    return False
+
+
+VECTOR_CORRUPTORS = {"replay-serde": _vc_serde, "replay-ffiseq": _vc_ffiseq, "replay-contains": _vc_contains, "replay-lit": _vc_lit, "replay-panic": _vc_panic, "replay": _vc_lang, "replay-hist": _vc_hist, "replay-reg": _vc_reg, "replay-types": _vc_types}
 
 SH = dict(quick=1, thorough=8)
 
@@ -364,15 +374,25 @@ CHECKS = {
     ),
     "C14": dict(
         level="model_checking",
-        rule="random contexts over a rich scheme with lists, a list-free scheme and a field-free scheme: the serialized text must "
+        rule="MC_C14 (TLC-enumerated): every field type of depth <= 1 x every document node of depth <= 1 over a scalar pool, five depth-2 "
+             "types x depth-2 nodes, map types x every array of <= 2 [key, value] pairs (string / byte-array / non-UTF-8 / malformed keys, "
+             "duplicates, wrong arity), and every document of <= 3 entries over well-typed / ill-typed / unknown / duplicate fields and "
+             "$lists sections: verdict, stored value (also as a Value tree presents the document) and canonical re-encoding; in-model "
+             "theorem DecValue(T, EncValue(v)) = v. "
+             "Random contexts over a rich scheme with lists, a list-free scheme and a field-free scheme: the serialized text must "
              "denote the document EncFields/EncLists prescribes; fed back through from_str, from_slice, from_reader, a Value tree "
              "and the C API it must give an equal context; one structural mutation per document (type swaps, nesting changes, "
              "pair arity, byte 256, unknown field, duplicate field, $lists entries with unknown/deep/unregistered types or missing "
              "data, non-object top level) must be accepted iff the type-directed decoder DecEntries accepts it, never panic and "
              "never store a wrong-typed value; strict prefixes are rejected",
-        assumptions=["strings that parse as IP addresses denote IP nodes (generators never put such text into byte-string fields)",
+        exhaustive=True,
+        assumptions=["strings that parse as IP addresses denote IP nodes that keep their text (a Bytes field takes the text)",
                      "matcher data of the harness list is opaque to the specification"],
         stages=[
+            mc("values-depth1", "MC_C14.tla", "MC_C14_val1.cfg", replay_cmd="replay-serde", workers=4),
+            mc("values-depth2", "MC_C14.tla", "MC_C14_val2.cfg", replay_cmd="replay-serde", workers=4),
+            mc("map-pairs", "MC_C14.tla", "MC_C14_pairs.cfg", replay_cmd="replay-serde", workers=4),
+            mc("documents", "MC_C14.tla", "MC_C14_docs.cfg", replay_cmd="replay-serde", workers=6),
             trace("serde", "Trace_Serde", ["gen-serde"], 2400, 120000, shards=SH),
         ],
     ),
